@@ -193,6 +193,8 @@ class _Typer:
                     return self.unsqueeze(self.shape(c.args[0], env), c.args[1])
                 if name in ('swapaxes', 'transpose') and len(c.args) == 3:
                     return self.swap(self.shape(c.args[0], env), c.args[1], c.args[2])
+                if name == 'einsum' and c.args:
+                    return self.einsum(c, env)
                 if name == 'matmul' and len(c.args) == 2:
                     return self.matmul(ast.BinOp(left=c.args[0], op=ast.MatMult(), right=c.args[1]), env, node=c)
                 return None
@@ -211,6 +213,53 @@ class _Typer:
                 return False, [s[1][i] for i in idx]
             return None
         return None
+
+    def einsum(self, c, env):
+        args = list(c.args)
+        ops, out = [], None
+        if isinstance(args[0], ast.Constant) and isinstance(args[0].value, str):
+            spec = args[0].value.replace(' ', '')
+            if '->' not in spec or '.' in spec:
+                return None
+            lhs, rhs = spec.split('->')
+            labs = lhs.split(',')
+            if len(labs) != len(args) - 1:
+                return None
+            ops = list(zip(args[1:], [list(x) for x in labs]))
+            out = list(rhs)
+        else:
+            if len(args) % 2 == 0:
+                return None
+            def lab(e):
+                if isinstance(e, (ast.List, ast.Tuple)) and all(isinstance(x, ast.Constant) and isinstance(x.value, int) for x in e.elts):
+                    return [x.value for x in e.elts]
+                return None
+            for k in range(0, len(args) - 1, 2):
+                l = lab(args[k + 1])
+                if l is None:
+                    return None
+                ops.append((args[k], l))
+            out = lab(args[-1])
+            if out is None:
+                return None
+        dim_of = {}
+        for e, labels in ops:
+            s = self.shape(e, env)
+            if s is None or s[0] or len(s[1]) != len(labels):
+                continue
+            for l, d in zip(labels, s[1]):
+                if d == () or any(t.startswith('?') for t in d):
+                    continue
+                if l in dim_of and dim_of[l] != d and len(d) > 1 and d[0] != '~' and dim_of[l][0] != '~' and sorted(d) == sorted(dim_of[l]):
+                    self.decided += 1
+                    self.rep.touch(self.m)
+                    self.rep.violation('FL1', self.fi.qual, f'`{ast.unparse(c)[:70]}` pairs (label {l}) an axis merged as ({", ".join(dim_of[l])}) with one merged as ({", ".join(d)})',
+                                       self.m, c)
+                    return None
+                dim_of.setdefault(l, d)
+        if not dim_of:
+            return None
+        return False, [dim_of.get(l, (_opaque(),)) for l in out]
 
     def unsqueeze(self, s, k):
         if s is None or not (isinstance(k, ast.Constant) and isinstance(k.value, int)) and not (
